@@ -1070,6 +1070,7 @@ type Reader struct {
 	ctx             map[string]any
 	parentCtx       *map[string]any
 	headless        bool
+	err             error // error of a failed block, reported once the blocks decoded before it are consumed
 }
 
 type decodingTask struct {
@@ -1645,10 +1646,17 @@ func (this *Reader) Read(block []byte) (int, error) {
 
 		// Buffer empty, time to decode
 		if this.available == 0 {
+			if this.err != nil {
+				// A block failed: nothing at or beyond it is ever delivered
+				return len(block) - remaining, this.err
+			}
+
 			var err error
 
 			if this.available, err = this.processBlock(); err != nil {
-				return len(block) - remaining, err
+				// Deliver the blocks decoded before the failed one (if any), then the error
+				this.err = err
+				continue
 			}
 
 			if this.available == 0 {
@@ -1763,14 +1771,17 @@ func (this *Reader) processBlock() (int64, error) {
 
 			if r.decoded > this.blockSize {
 				errMsg := fmt.Sprintf("Block %d incorrectly decompressed", r.blockID)
+				this.consumed = 0
 				return decoded, &IOError{msg: errMsg, code: kanzi.ERR_PROCESS_BLOCK}
 			}
 
-			decoded += int64(r.decoded)
-
 			if r.err != nil {
+				// Only the blocks before the failed one are available
+				this.consumed = 0
 				return decoded, r.err
 			}
+
+			decoded += int64(r.decoded)
 
 			copy(this.buffers[n].Buf, r.data[0:r.decoded])
 			n++
